@@ -3,6 +3,7 @@
 package dtls
 
 import (
+	"crypto/tls"
 	"context"
 	"fmt"
 	"sync"
@@ -57,13 +58,36 @@ func c09CollectV13(lab *vLab, res *c09Case) {
 
 func runC09V13(t *testing.T, drop, dup int, writers, perWriter, updates int) c09Case {
 	t.Helper()
+
+	return runC09V13x(t, drop, dup, writers, perWriter, updates, 0, false, -1)
+}
+
+// runC09V13x: mtu > 0 fragments the handshake messages (partial acknowledgement and partial
+// retransmission of protected flights), clientAuth adds the client's Certificate/CertificateVerify,
+// drop2 is a second lost datagram.
+func runC09V13x(t *testing.T, drop, dup int, writers, perWriter, updates, mtu int, clientAuth bool, drop2 int) c09Case {
+	t.Helper()
 	res := c09Case{Kind: "session13", Variant: "v13-cert", Drop: drop, Dup: dup, ImportAt: -1}
 	ccfg, scfg := vCertPair()
 	ccfg.MinVersion, ccfg.MaxVersion = protocol.Version1_3, protocol.Version1_3
 	scfg.MinVersion, scfg.MaxVersion = protocol.Version1_3, protocol.Version1_3
+	if mtu > 0 {
+		ccfg.MTU, scfg.MTU = mtu, mtu
+		res.Variant = fmt.Sprintf("v13-cert-mtu%d", mtu)
+	}
+	if clientAuth {
+		cr := vGetCreds()
+		ccfg.Certificates = []tls.Certificate{cr.Client}
+		scfg.ClientAuth = RequireAndVerifyClientCert
+		scfg.ClientCAs = cr.Pool
+		res.Variant += "-clientauth"
+	}
+	if drop2 >= 0 {
+		res.Variant += fmt.Sprintf("-drop2:%d", drop2)
+	}
 	lab := newLab(t, ccfg, scfg)
 	lab.Pump.Policy = func(d vDatagram) (vAction, int) {
-		if d.Idx == drop {
+		if d.Idx == drop || d.Idx == drop2 {
 			return vDrop, 0
 		}
 		if d.Idx == dup {
@@ -153,6 +177,42 @@ func TestVerifC09V13(t *testing.T) {
 		j := j
 		var res c09Case
 		vBubble(t, func(t *testing.T) { res = runC09V13(t, j.drop, j.dup, j.writers, j.perW, j.updates) })
+		out.emit(res)
+	}
+	// fragmented protected flights: every single lost datagram among the first ones (partial ACK, then
+	// partial retransmission of the un-ACKed fragments), plus sampled pairs
+	type fjob struct {
+		mtu        int
+		ca         bool
+		drop, drp2 int
+	}
+	var fjobs []fjob
+	for _, mtu := range []int{100, 200} {
+		for _, ca := range []bool{false, true} {
+			last := 70
+			if mtu == 200 {
+				last = 40
+			}
+			step := 1
+			if !vIsThorough() {
+				step = 2
+			}
+			for d := 0; d < last; d += step {
+				fjobs = append(fjobs, fjob{mtu, ca, d, -1})
+			}
+		}
+	}
+	np := 20
+	if vIsThorough() {
+		np = 400
+	}
+	for i := 0; i < np; i++ {
+		fjobs = append(fjobs, fjob{[]int{100, 200, 300}[rng.intn(3)], rng.chance(50), rng.intn(60), rng.intn(80)})
+	}
+	for _, j := range fjobs {
+		j := j
+		var res c09Case
+		vBubble(t, func(t *testing.T) { res = runC09V13x(t, j.drop, -1, 1, 2, 1, j.mtu, j.ca, j.drp2) })
 		out.emit(res)
 	}
 }
